@@ -12,7 +12,8 @@ from collections import Counter
 from .. import refdbus as R
 from .. import busbox as B
 from .. import explore
-from ..engine import Violation, known_fingerprints
+from ..engine import Violation, known_fingerprints, Pool, crash_violation, worker_bus
+from ..vbox import HarnessDied
 from ..session import BusSession, NOC_RULE
 from ..models import names as N
 from ..registry import claim
@@ -294,8 +295,64 @@ class Session(BusSession):
         return self.impl_key() + '#' + self.model.key() + '#' + live
 
 
+# names nobody owns that merely start like the bus's own name, like an owned name, or extend one; the bus name; unique names
+PHANTOMS = [b'org.freedesktop.DBus.Example', b'org.freedesktop.DBusX', b'org.freedesktop.DBu', b'com.example.N1.sub', b'com.example.N', b'com.example.N10', b':1.99999']
+QUERY_HISTORIES = [[], [['req', 'A', 0, 0]], [['req', 'A', 0, 0], ['req', 'B', 0, 0]], [['req', 'A', 0, 0], ['req', 'B', 0, 0], ['rel', 'A', 0]],
+                   [['req', 'A', 0, 1], ['req', 'B', 0, 3], ['disc', 'B']], [['req', 'A', 0, 0], ['disc', 'A'], ['conn', 'A']]]
+
+
+def task_queries(hists):
+    """The four query methods on names around the owned ones, in a handful of registry states: they must agree with each other
+    and with the registry (an unowned name has no owner whatever it starts with; the bus owns its name; a unique name is owned
+    by its connection alone)."""
+    out = []
+    n = 0
+    for hist in hists:
+        case = {'queries': hist}
+        try:
+            s = Session({'names': 1, 'flags': [0, 1, 3]})
+            for op in hist:
+                s.apply(op)
+
+            def q(member, name):
+                nonlocal n
+                n += 1
+                return s.method('O', member, [R.S(name)])[1]
+            for ph in PHANTOMS:
+                r1, r2, r3 = q('GetNameOwner', ph), q('NameHasOwner', ph), q('ListQueuedOwners', ph)
+                if not (r1 is not None and r1.kind == R.MT_ERROR and r2 is not None and r2.kind == R.MT_RETURN and r2.args() == [0] and r3 is not None and r3.kind == R.MT_ERROR):
+                    out.append(Violation('query-disagrees', 'unowned-lookalike', 'after %r: the unowned name %r: GetNameOwner %r, NameHasOwner %r, ListQueuedOwners %r' % (hist, ph, r1, r2, r3), case))
+            names = s.method('O', 'ListNames', [])[1]
+            listed = set(names.args()[0]) if names is not None and names.kind == R.MT_RETURN else set()
+            if listed & set(PHANTOMS):
+                out.append(Violation('query-disagrees', 'unowned-lookalike', 'after %r: ListNames contains %r' % (hist, listed & set(PHANTOMS)), case))
+            own = [(R.BUS, R.BUS)] + [(s.uname[l], s.uname[l]) for l in CLIENTS + ['O'] if s.is_open(l)]
+            for name, owner in own:
+                r1, r2, r3 = q('GetNameOwner', name), q('NameHasOwner', name), q('ListQueuedOwners', name)
+                ok = (r1 is not None and r1.kind == R.MT_RETURN and r1.args() == [owner] and r2 is not None and r2.kind == R.MT_RETURN and r2.args() == [1]
+                      and r3 is not None and r3.kind == R.MT_RETURN and r3.args() == [[owner]] and name in listed)
+                if not ok:
+                    out.append(Violation('query-disagrees', 'bus-or-unique-name', 'after %r: %r: GetNameOwner %r, NameHasOwner %r, ListQueuedOwners %r, listed %s' % (hist, name, r1, r2, r3, name in listed), case))
+        except HarnessDied as e:
+            out.append(crash_violation(e, case))
+            worker_bus().h.close()
+    return {'viol': [v.to_json() for v in out], 'n': n}
+
+
 def run(ctx):
     quick = ctx.tier == 'quick'
+    pool = Pool()
+    nq = 0
+    try:
+        for r in pool.imap(task_queries, [[h] for h in QUERY_HISTORIES]):
+            if '__crash__' in r:
+                ctx.add_violation(Violation('crash', r['__crash__'], r['stderr'], {'task': r['task']}))
+                continue
+            ctx.add_violations(r['viol'])
+            nq += r['n']
+    finally:
+        pool.close()
+    ctx.coverage['lookalike_name_queries'] = nq
     params = {'names': 1 if quick else 2, 'flags': [0, 1, 2, 3, 4, 5, 6, 7, 9]}
     if quick:
         with ctx.sub_budget(0.7):
@@ -317,4 +374,6 @@ def run(ctx):
 
 
 def replay(case):
+    if 'queries' in case:
+        return [Violation.from_json(v) for v in task_queries([case['queries']])['viol']]
     return explore.replay_history(FACTORY, case['params'], case['history'])
